@@ -99,8 +99,36 @@ def synth(rng, v, width, channels, block, thr, use_channel=None, partial_last=0,
     return b"".join(parts), dbs
 
 
+def wav_image(rng, nbytes):
+    """exactly nbytes that form a complete, valid RIFF/WAVE file (44-byte PCM header + payload) - handed to the library as
+    RAW samples: content that looks like something else must still be treated as what the caller says it is."""
+    payload = nbytes - 44
+    rate, width, channels = rng.choice(((44100, 1, 2), (8000, 2, 1), (16000, 2, 2), (22050, 1, 1)))
+    payload_used = payload - payload % (width * channels)
+    hdr = b"RIFF" + struct.pack("<I", 36 + payload_used) + b"WAVE" + b"fmt " + struct.pack("<IHHIIHH", 16, 1, channels, rate, rate * width * channels,
+                                                                                          width * channels, 8 * width) + b"data" + struct.pack("<I", payload_used)
+    return hdr + rng.randbytes(payload)
+
+
+MAGIC_TEXTS = (b"STOP_PROCESSING", b"None", b"RIFF", b"\x00", b"EOF\n")
+
+
 def random_pcm(rng, nsamples, width, channels):
-    return rng.randbytes(nsamples * width * channels)
+    """random PCM; about one time in ten it is 'content that looks like something else': a complete wav-file image, a
+    bare RIFF....WAVE prefix, a sentinel-like text tiled through the data, or nothing but the most negative sample value"""
+    n = nsamples * width * channels
+    r = rng.random()
+    if r < 0.035 and n >= 46:
+        return wav_image(rng, n)
+    if r < 0.05 and n >= 12:
+        return b"RIFF" + rng.randbytes(4) + b"WAVE" + rng.randbytes(n - 12)
+    if r < 0.075 and n:
+        t = rng.choice(MAGIC_TEXTS)
+        return (t * (n // len(t) + 1))[:n]
+    if r < 0.1 and n:
+        lo = (1 << (8 * width - 1)).to_bytes(width, "little")  # -128 / -32768 / -2**31
+        return b"".join(lo if rng.random() < 0.8 else bytes(width) for _ in range(nsamples * channels))
+    return rng.randbytes(n)
 
 
 def model_verdicts(data, width, channels, block, thr, use_channel=None, guard=1e-6):
